@@ -1,0 +1,20 @@
+//go:build verif
+
+package dns
+
+import (
+	"net/http"
+
+	"github.com/hashicorp/go-retryablehttp"
+)
+
+// VerifRoundTripper, when set, replaces the network transport of the HTTP
+// client that DoH creates for each query, and disables retries.
+var VerifRoundTripper http.RoundTripper
+
+func verifClientHook(client *retryablehttp.Client) {
+	if VerifRoundTripper != nil {
+		client.HTTPClient = &http.Client{Transport: VerifRoundTripper}
+		client.RetryMax = 0
+	}
+}
